@@ -144,7 +144,7 @@ pub fn def() -> PropDef {
     PropDef {
         id: "C01",
         level: "exploration",
-        rule: "proptest histories of 1-60 ops (thorough: -160) over colliding name pools, both versions, fresh or foreign-layout start; every result compared with the abstract tree model, full dump every 6 ops and at the end, reopen (both modes) at the end. Scenario steps: every insertion x removal order of up to 5 siblings, monotone sibling chains of 70-150 names, a pivot above a long right spine, 300 nested storages made by one create_storage_all. Non-trivial = history with >=1 removal of a node that had two children in the sibling tree (measured on the byte image by the independent parser), or a reopen followed by a mutation, or a stream crossing the 4096 cutoff; distinct = distinct case JSON.",
+        rule: "proptest histories of 1-60 ops (thorough: -160) over colliding name pools, both versions, fresh or foreign-layout start; every result compared with the abstract tree model, full dump every 6 ops and at the end, reopen (both modes) at the end. Scenario steps: every insertion x removal order of up to 5 siblings, monotone sibling chains of 70-150 names, a pivot above a long right spine, 300 nested storages made by one create_storage_all. Non-trivial = history with >=1 removal of a node that had two children in the sibling tree (measured on the byte image by the independent parser), or a reopen followed by a mutation, or a stream crossing the 4096 cutoff; distinct = distinct case JSON. Thorough tier: libFuzzer campaign fz_hist over byte-encoded histories (16-byte record per op) with this same runner and oracle.",
         assumptions: &["the abstract model (harness/src/model.rs) transcribes the rustdoc of each method", "upper-casing table from Perl Unicode::UCD restricted to Unicode <= 3.0 mappings"],
         quick_cases: 1500,
         thorough_cases: 25000,
